@@ -212,6 +212,50 @@ class Ctx:
         return rc
 
 
+def generic_replay(ctx, path):
+    """re-run exactly the recorded case(s) of a replay file against the working tree: implementation and model side by side"""
+    d = json.load(open(path))
+    print('replay of %s: kind=%s key=%s' % (path, d.get('kind'), d.get('key')))
+    if d.get('kind') == 'no-failing-input-found':
+        print('no failing input was found; what no longer checks:')
+        for t in d.get('no_longer_checks', []):
+            print('  - ' + t[:1000])
+        return 1
+    print('what: %s' % d.get('what'))
+    cases = []
+
+    def collect(x):
+        if isinstance(x, str):
+            if x.split(' ', 1)[0] in vf.PREFIX:
+                cases.append(x)
+        elif isinstance(x, dict):
+            for v in x.values():
+                collect(v)
+        elif isinstance(x, list):
+            for v in x:
+                collect(v)
+    collect(d.get('input'))
+    if not cases:
+        print('the replay carries no harness case line; recorded input:')
+        print(json.dumps(d.get('input'), indent=1)[:4000])
+        return 1
+    if not ctx.build():
+        print('build failed: ' + '; '.join(ctx.tie_failures))
+        return 1
+    res = vf.run_both(ctx.bdir, cases, 'replay', shards=1)
+    for c in cases:
+        cid = vf.case_id(c)
+        print('case: ' + c[:600])
+        a, b = res['impl'].get(cid), res['model'].get(cid)
+        for name, tr in (('implementation', a), ('model', b)):
+            print(' %s:' % name)
+            for t in (tr or [])[:40]:
+                print('   ' + ' '.join(t)[:300])
+    print('model/implementation mismatches: %d, crashes: %d' % (len(res['mismatches']), len(res['crashes'])))
+    vf.cleanup_work()
+    return 1 if (res['mismatches'] or res['crashes']) else 0
+
+
 def main(argv):
     import importlib
     if len(argv) < 2:
@@ -237,7 +281,9 @@ def main(argv):
     ctx = Ctx(pid, tier)
     try:
         if replay:
-            return mod.replay(ctx, replay)
+            if hasattr(mod, 'replay'):
+                return mod.replay(ctx, replay)
+            return generic_replay(ctx, replay)
         mod.run(ctx)
     except Exception:
         ctx.tie_failures.append('check crashed: ' + traceback.format_exc()[-1500:])
